@@ -68,7 +68,12 @@ RULE = (
     "and bit-identical values. Every leaf is a distinct (limits, lengths, answers) triple by construction; a leaf "
     "is non-trivial when the enabled group drew a non-empty mask or a non-zero shift. states = distinct drawn "
     "parameter tuples (with their lengths), transitions = draws, traces = draws also applied and checked (and "
-    "compared with SpecAugment.__call__ / functional.spec_augment under the same answers; quick: every warp/joint leaf and a quarter of the mask leaves)."
+    "compared with SpecAugment.__call__ / functional.spec_augment under the same answers; quick: every warp/joint leaf and a quarter of the mask leaves). UNUSUAL CALLERS (round 6): "
+    "every application is repeated with the lengths as int32 / int16 / uint8 / float32 / float64 tensors (same result as "
+    "int64 lengths), and - when no warp is drawn - on features a third of whose valid cells are -inf / +inf (masked "
+    "cells must still be zero, the others bit-identical); KNOT units with LONG valid lengths (130-250 of 250; "
+    "16385 / 17000 of 17000), where 2 x length leaves the range of uint8 / int16 and the knot offset in frames grows "
+    "with the padded length."
 )
 ASSUMPTIONS = [
     "small scope: T<=13, F<=4, N<=3, float32 features on CPU, limit menus as in RULE",
@@ -246,6 +251,12 @@ def all_units(tier):
                                else ((1, 1), (100, 1), (100, 2))):
                 units.append({"pass": "knot", "mode": "dist", "T": T, "F": 1 if order == 1 else 2, "lens": lens,
                               "cfg": dict(OFF, max_time_warp=mtw, interpolation_order=order)})
+    # LONG valid lengths (round 6): 2 * length exceeds the range of uint8 (>= 128) / int16 (>= 16384) - the lengths-dtype
+    # variants of _check_apply then cross the point where a narrow integer type wraps
+    for T, lens, mtws in ((250, [130, 200, 250], ((3, 1), (100, 1), (100, 2))), (17000, [16385, 17000], ((100, 1),))):
+        for mtw, order in mtws:
+            units.append({"pass": "knot", "mode": "dist", "T": T, "F": 1 if order == 1 else 2, "lens": lens,
+                          "cfg": dict(OFF, max_time_warp=mtw, interpolation_order=order)})
     for T in range(1, 257 if thorough else 65):  # every padded length around very short sequences
         units.append({"pass": "knot", "mode": "sweep", "T": T, "F": 1, "lens": [L for L in (1, 2, 3) if L <= T],
                       "cfg": dict(OFF, max_time_warp=100, interpolation_order=1)})
@@ -327,6 +338,7 @@ class Env:
 
 
 LAYOUTS = ("transposed", "offset", "float64")
+LENGTH_DTYPES = (torch.int32, torch.int16, torch.uint8, torch.float32, torch.float64)
 
 
 def _layout_variants(feats):
@@ -342,7 +354,7 @@ def _layout_variants(feats):
     }
 
 
-def _same(a, b, exact):
+def _same(a, b, exact, rtol=1e-4):
     """a vs reference b (b float32 contiguous); NaNs must coincide."""
     if tuple(a.shape) != tuple(b.shape):
         return False
@@ -350,7 +362,7 @@ def _same(a, b, exact):
     if not torch.equal(a.isnan(), b.isnan()):
         return False
     a, b = a.nan_to_num(0.0), b.nan_to_num(0.0)
-    return torch.equal(a, b) if exact else bool(((a - b).abs() <= 1e-4 * (1 + b.abs())).all())
+    return torch.equal(a, b) if exact else bool(((a - b).abs() <= rtol * (1 + b.abs())).all())
 
 
 def _check_layouts(ctx, env, case, warped, which, fn, ref, api, extra=None):
@@ -367,8 +379,10 @@ def _check_layouts(ctx, env, case, warped, which, fn, ref, api, extra=None):
             ctx.violation(dict(sig, symptom="raises", type=type(e).__name__), dict(case, layout=name),
                           {"error": str(e)[-400:]})
             continue
+        # a float32 sampling position on an axis of T frames is only good to ~1e-7 * T frames: the float64 feed may
+        # differ from the float32 one by that much of a neighbouring-frame difference on very long axes
         if not isinstance(out, torch.Tensor) or out.dtype != view.dtype or not _same(
-                out, ref, exact=not (warped and name == "float64")):
+                out, ref, exact=not (warped and name == "float64"), rtol=max(1e-4, 4e-7 * env.T)):
             ctx.violation(dict(sig, symptom="result-depends-on-memory-layout"), dict(case, layout=name),
                           {"layout_strides": list(view.stride()), "dtype": str(view.dtype),
                            "contiguous_float32_result": ref.tolist(),
@@ -607,6 +621,58 @@ def _check_apply(ctx, env, params, case, out=None):
     _check_layouts(ctx, env, case, warped, _which_layouts(env, salt),
                    lambda x: mod.apply_parameters(x, params, env.lengths), out, API_A,
                    {"time_warp": warped_t})
+    # ---- unusual but legal callers (round 6) ----------------------------------------------------
+    # (a) apply_parameters documents `lengths` as "a tensor of shape (N,)": the same lengths in every integer / float
+    # dtype that holds them must give the result the int64 lengths give (narrow integer types wrap in 2 * lengths)
+    if env.lengths is not None:
+        for dt in LENGTH_DTYPES:
+            if dt == torch.uint8 and max(env.lens_eff) > 255:
+                continue
+            try:
+                alt = mod.apply_parameters(env.feats, params, env.lengths.to(dt))
+            except Exception as ex:
+                ctx.violation({"api": API_A, "symptom": "raises", "type": type(ex).__name__, "warped": warped,
+                               "lengths_dtype": str(dt)}, dict(case, lengths_dtype=str(dt)), {"error": str(ex)[-300:]})
+                continue
+            if not _same(alt, out, exact=not warped):
+                ctx.violation({"api": API_A, "symptom": "result-depends-on-dtype-of-lengths", "warped": warped,
+                               "lengths_dtype": str(dt), "doubled_length_overflows_dtype":
+                               (not dt.is_floating_point) and 2 * max(env.lens_eff) > torch.iinfo(dt).max},
+                              dict(case, lengths_dtype=str(dt)),
+                              {"lengths": env.lens_eff, "int64_lengths_result": out.tolist(), "this_result": alt.tolist()})
+            else:
+                ctx.count("lengths_dtype_variants_equal")
+    # (b) "every feature batch": log-energies of silent cells are -inf.  Without a warp (interpolating infinities is
+    # not judged) masked cells of valid frames must still come out as zero and every other valid cell bit-identical
+    if not warped and (any(rows) or any(cols)):
+        inf_feats = env.feats.clone()
+        for n in range(env.N):
+            for t in range(env.lens_eff[n]):
+                for f in range(env.F):
+                    if (n + t + 2 * f) % 3 == 0:
+                        inf_feats[n, t, f] = float("inf") if (t + f) % 4 == 1 else float("-inf")
+        try:
+            got = mod.apply_parameters(inf_feats.clone(), params, env.lengths)
+        except Exception as ex:
+            got = None
+            ctx.violation({"api": API_A, "symptom": "raises", "type": type(ex).__name__, "warped": False,
+                           "features": "with-infinite-cells"}, case, {"error": str(ex)[-300:]})
+        if got is not None:
+            bad = None
+            for n in range(env.N):
+                for t in range(env.lens_eff[n]):
+                    for f in range(env.F):
+                        g, x = got[n, t, f].item(), inf_feats[n, t, f].item()
+                        masked = t in rows[n] or f in cols[n]
+                        if (masked and g != 0.0) or (not masked and g != x):
+                            bad = bad or (n, t, f, masked, x, g)
+            if bad:
+                ctx.violation({"api": API_A, "symptom": "masked-cell-not-zero" if bad[3] else "unmasked-cell-changed",
+                               "warped": False, "features": "with-infinite-cells"}, dict(case, inf_cells=True),
+                              {"cell": list(bad[:3]), "input": bad[4], "output": bad[5],
+                               "masked_frames": [sorted(r) for r in rows], "masked_coefficients": [sorted(c) for c in cols]})
+            else:
+                ctx.count("applications_on_features_with_infinite_cells")
     # ---- positions read by the time warp (ramp probe, masks stripped) ---------------------
     if warped_t:
         e = torch.empty(0)
